@@ -132,7 +132,7 @@ package zipslicer
 //@   property C17
 //@   requires 0 <= d.DirLoc && d.DirLoc <= 2305843009213693952
 //@   before call (*bufio.Writer).Reset(_, w): assert @end_records_go_to_a_real_writer w != nil
-//@   modifies any File.Extra, any bytes.Buffer
+//@   modifies any File.Extra, sink wcd, sink weod
 //@   before call encoding/binary.Write(_, _, v): assert @end_record_describes_the_directory istype(v, zipEndRecord) && !(minVersion == 45) ==> \
 //@        unbox(v, zipEndRecord).TotalCDCount == count && unbox(v, zipEndRecord).DiskCDCount == count && unbox(v, zipEndRecord).CDSize == size && \
 //@        unbox(v, zipEndRecord).CDOffset == cdoff && unbox(v, zipEndRecord).Signature == 101010256
